@@ -105,6 +105,10 @@ func (s *Site) Handler() Handler {
 		h := w.Header()
 		h["Date"] = []string{time.Now().UTC().Format(http.TimeFormat)}
 		for _, hv := range v.Headers {
+			if http.CanonicalHeaderKey(hv.K) == "Date" {
+				h["Date"] = []string{hv.V} // the version's own generation date replaces the clock's
+				continue
+			}
 			h.Add(hv.K, hv.V)
 		}
 		if v.ETag != "" {
